@@ -427,7 +427,7 @@ def _sml_enum(ck, specs, props, agree=("InvAgreeParse",)):
         total += len(evs)
         if ck.violations:
             break
-    ck.extra["sml_co_enumeration"] = dict(scopes=specs, texts=total, vocabulary=37, small_vocabulary=12)
+    ck.extra["sml_co_enumeration"] = dict(scopes=specs, texts=total, vocabulary=38, small_vocabulary=13)
     return total
 
 
@@ -462,7 +462,7 @@ def c05(ck):
     if ck.violations:
         return
     # every sequence of words in item position: type word, size, values of every class, closing
-    ck.rule.append("co-enumeration: every sequence of <= 2 (quick) / 3 words of a 37-word vocabulary and <= 3 / 4 words of a 12-word one "
+    ck.rule.append("co-enumeration: every sequence of <= 2 (quick) / 3 words of a 38-word vocabulary and <= 3 / 4 words of a 13-word one "
                    "between '<' and '>' of an item")
     _sml_enum(ck, q(ck, ["item:full:2,item:small:3"], ["item:full:3", "item:small:4"]), ["InvC05"])
     if ck.violations:
@@ -496,8 +496,8 @@ def c06(ck):
     if ck.violations:
         return
     # co-enumeration: every short word sequence in five contexts (behind a header, in a list, in an item, as header, behind a message)
-    ck.rule.append("co-enumeration: every sequence of <= 2 (quick) / 3 words of a 37-word vocabulary in 5 contexts, and <= 3 / 4 words of a "
-                   "12-word one in list position")
+    ck.rule.append("co-enumeration: every sequence of <= 2 (quick) / 3 words of a 38-word vocabulary in 5 contexts, and <= 3 / 4 words of a "
+                   "13-word one in list position")
     _sml_enum(ck, q(ck, ["top:full:2,list:full:2,item:full:2,head:full:2,two:full:2,list:small:3"],
                     ["top:full:3", "list:full:3", "head:full:3", "two:full:3", "list:small:4"]), ["InvC06"])
     if ck.violations:
@@ -602,8 +602,8 @@ def c17(ck):
     if ck.violations:
         return
     # the same, as the very first calls a process makes into the library (state initialised on first use)
-    ev = ck.trace("cold", "conc-cold", ["-in", table, "-n", q(ck, 3, 10)], "TraceConc", "TraceConc.cfg", ["InvC17"], worker=True, race=True,
+    ev = ck.trace("cold", "conc-cold", ["-in", table, "-n", q(ck, 6, 12)], "TraceConc", "TraceConc.cfg", ["InvC17"], worker=True, race=True,
                   nontrivial=lambda e: e.get("ev") == "conc", key=lambda e: json.dumps([e.get("ev"), e.get("calls"), "cold"]))
     ck.extra["cold_start"] = "%d configurations (one per multiset of operations%s), each in a process of its own, %d attempts" % (
-        len(ev), "" if ck.tier == "thorough" else ", pairs", q(ck, 3, 10))
+        len(ev), "" if ck.tier == "thorough" else ", pairs", q(ck, 6, 12))
     ck.assumptions += ["one execution per configuration and round; schedules are not controlled (the detector does not need them to be)"]
